@@ -44,11 +44,39 @@ func newRenterEnv(p *ir.Prog, f *ir.Func) *renterEnv {
 			}
 		}
 		if isRoundtrip && len(call.Expr.Args) > 0 {
-			last := call.Expr.Args[len(call.Expr.Args)-1]
-			if o := addrOfVar(f, last); o != nil {
-				env.resp[o] = true
-			} else if o := f.ObjOf(last); o != nil {
-				env.resp[o] = true
+			// the response: the object handed in to be decoded into (by its type, not by its position), or what the
+			// helper hands back
+			isRespT := func(t types.Type) bool {
+				if pt, ok := t.(*types.Pointer); ok {
+					t = pt.Elem()
+				}
+				nt := ir.NamedOf(t)
+				return nt != nil && strings.HasSuffix(nt.Obj().Name(), "Response")
+			}
+			marked := false
+			for _, a := range call.Expr.Args {
+				if o := addrOfVar(f, a); o != nil && isRespT(o.Type()) {
+					env.resp[o], marked = true, true
+				} else if o := f.ObjOf(a); o != nil && isRespT(o.Type()) {
+					env.resp[o], marked = true, true
+				}
+			}
+			if n := f.Graph().NodeContaining(call.Pos()); n != nil {
+				if as, ok := n.AST.(*ast.AssignStmt); ok && len(as.Rhs) == 1 && ast.Unparen(as.Rhs[0]) == ast.Expr(call.Expr) {
+					for _, l := range as.Lhs {
+						if o := f.ObjOf(l); o != nil && isRespT(o.Type()) {
+							env.resp[o], marked = true, true
+						}
+					}
+				}
+			}
+			if !marked {
+				last := call.Expr.Args[len(call.Expr.Args)-1]
+				if o := addrOfVar(f, last); o != nil {
+					env.resp[o] = true
+				} else if o := f.ObjOf(last); o != nil {
+					env.resp[o] = true
+				}
 			}
 		}
 		if isCoreConstructor(call.Fn) {
@@ -61,6 +89,21 @@ func newRenterEnv(p *ir.Prog, f *ir.Func) *renterEnv {
 						}
 					}
 				}
+			}
+		}
+	}
+	// a whole copy of such a value under another name (`renewal := terms.renewal`) is the same locally built value
+	for round := 0; round < 3; round++ {
+		for _, w := range f.WritesIn(f.Body, false) {
+			if w.RHS == nil {
+				continue
+			}
+			l, r := f.ObjOf(w.LHS), f.ObjOf(w.RHS)
+			if l == nil || r == nil || !env.revVars[r] || env.revVars[l] {
+				continue
+			}
+			if defs := wholeDefs(f, l); len(defs) == 1 && types.Identical(l.Type(), r.Type()) {
+				env.revVars[l] = true
 			}
 		}
 	}
@@ -106,6 +149,29 @@ func (env *renterEnv) successReturns(revOnly bool) []*cfgx.Node {
 				if f.MentionsObj(r.AST, false, o) {
 					mentions = true
 				}
+			}
+			// … or hands back a local that was given its value from one just before (`res = Result{Revision: rev}`)
+			if !mentions {
+				ir.Walk(r.AST, false, func(x ast.Node) {
+					id, ok := x.(*ast.Ident)
+					if !ok {
+						return
+					}
+					v, ok := f.ObjOf(id).(*types.Var)
+					if !ok || v.IsField() || env.revVars[v] {
+						return
+					}
+					for _, d := range ReachingDefs(f, v, r) {
+						if d == nil || d.AST == nil {
+							continue
+						}
+						for o := range env.revVars {
+							if f.MentionsObj(d.AST, false, o) {
+								mentions = true
+							}
+						}
+					}
+				})
 			}
 			if !mentions {
 				continue
@@ -258,6 +324,35 @@ func expandCond(f *ir.Func, cond ast.Expr) []ast.Node {
 			}
 			seen[o] = true
 			defs := wholeDefs(f, o)
+			// (a bare declaration next to the one assignment is no definition of a value)
+			if len(defs) > 1 {
+				var real []ir.Write
+				for _, d := range defs {
+					if vs, ok := d.Stmt.(*ast.ValueSpec); ok && len(vs.Values) == 0 {
+						continue
+					}
+					real = append(real, d)
+				}
+				if len(real) == 1 {
+					defs = real
+				}
+			}
+			if len(defs) > 1 && depth == 0 {
+				// a variable that is reused later (`…, ok := …` twice in one scope): the definition that reaches the test
+				if at := f.Graph().NodeContaining(cond.Pos()); at != nil {
+					if rd := ReachingDefs(f, o, at); len(rd) == 1 && rd[0] != nil && rd[0].AST != nil {
+						var one []ir.Write
+						for _, w := range f.WritesIn(rd[0].AST, false) {
+							if f.ObjOf(w.LHS) == o {
+								one = append(one, w)
+							}
+						}
+						if len(one) == 1 {
+							defs = one
+						}
+					}
+				}
+			}
 			if len(defs) == 1 {
 				if defs[0].RHS != nil {
 					walk(defs[0].RHS, depth+1)
@@ -432,13 +527,31 @@ func c10table() map[string][]guardSpec {
 	total.revOnly = true
 	hostFunding := func(costFn string) guardSpec {
 		return cond("host-funding", "the host may under-fund its side of the transaction", func(env *renterEnv, parts []ast.Node) bool {
+			// the comparison of what the host funded with what it owes: Cmp, or a subtraction that reports underflow
+			compares := hasCallNamed(env.f, parts, "Cmp") > 0 || hasCallNamed(env.f, parts, "SubWithUnderflow") > 0
 			if costFn == "" {
-				return hasField(parts, "TotalCollateral") && hasCallNamed(env.f, parts, "Cmp") > 0
+				return hasField(parts, "TotalCollateral") && compares
 			}
-			return hasCallNamed(env.f, parts, costFn) > 0 && hasCallNamed(env.f, parts, "Cmp") > 0
+			return hasCallNamed(env.f, parts, costFn) > 0 && compares
 		})
 	}
-	nonEmptySet := cond("non-empty-set", "an empty transaction set is indexed", lenOfField("TransactionSet"))
+	// (the list of the host's final set: a field TransactionSet of the response, or Transactions of the result's set)
+	nonEmptySet := cond("non-empty-set", "an empty transaction set is indexed", func(env *renterEnv, parts []ast.Node) bool {
+		if !hasLen(env.f, parts) {
+			return false
+		}
+		if hasField(parts, "TransactionSet") {
+			return true
+		}
+		for _, p := range parts {
+			if sel, ok := p.(*ast.SelectorExpr); ok && sel.Sel.Name == "Transactions" {
+				if nt := ir.NamedOf(env.f.TypeOf(sel.X)); nt != nil && nt.Obj().Name() == "TransactionSet" {
+					return true
+				}
+			}
+		}
+		return false
+	})
 	renewGuards := func(costFn string) []guardSpec {
 		return []guardSpec{
 			hostFunding(costFn),
@@ -620,6 +733,10 @@ func c10r2(c *Ctx) {
 					rhs := d.RHS
 					if rhs == nil {
 						rhs = ir.TupleRHS(d.Stmt)
+					}
+					// (a whole copy of another locally constructed value counts: `renewal := terms.renewal`)
+					if o := f.ObjOf(rhs); o != nil && env.revVars[o] && o != root {
+						continue
 					}
 					call, ok := ast.Unparen(rhs).(*ast.CallExpr)
 					if !ok || !isCoreConstructor(f.Callee(call)) {
